@@ -548,6 +548,82 @@ func runAcceptedRefusals(r *rep.Report) {
 	})
 }
 
+// runUpgradeFailures: requests that pass every admission check and ask for a WebSocket upgrade
+// which the WebSocket layer then refuses (wrong version, missing or short key, wrong method with a
+// known sid).  The engine rejects them as "Bad request": one JSON answer, one connection_error.
+func runUpgradeFailures(r *rep.Report) {
+	rig.Bubble(r.T(), func() {
+		so := &config.ServerOptions{}
+		w := rig.NewWorld(rig.Options{Server: so})
+		defer w.Finish()
+		wsSession, err := w.Connect(rig.ClientCfg{Rev: 4, Transport: "websocket"})
+		rig.Wait()
+		if err != nil {
+			r.Inconclusive("upgrade-failure lane: " + err.Error())
+			return
+		}
+		wsSession.StartReader()
+		base := func() http.Header {
+			return http.Header{"Connection": {"Upgrade"}, "Upgrade": {"websocket"}, "Sec-Websocket-Version": {"13"}, "Sec-Websocket-Key": {"dGhlIHNhbXBsZSBub25jZQ=="}}
+		}
+		type uf struct {
+			name   string
+			method string
+			query  string
+			mut    func(http.Header)
+		}
+		cases := []uf{
+			{"version 12", "GET", "EIO=4&transport=websocket", func(h http.Header) { h.Set("Sec-Websocket-Version", "12") }},
+			{"version absent", "GET", "EIO=4&transport=websocket", func(h http.Header) { h.Del("Sec-Websocket-Version") }},
+			{"key absent", "GET", "EIO=4&transport=websocket", func(h http.Header) { h.Del("Sec-Websocket-Key") }},
+			{"key not 16 bytes", "GET", "EIO=4&transport=websocket", func(h http.Header) { h.Set("Sec-Websocket-Key", "c2hvcnQ=") }},
+			{"key not base64", "GET", "EIO=4&transport=websocket", func(h http.Header) { h.Set("Sec-Websocket-Key", "!!!!") }},
+			{"POST with the sid of a websocket session", "POST", "EIO=4&transport=websocket&sid=" + wsSession.Sid, func(h http.Header) {}},
+			{"version 12 with the sid of a websocket session", "GET", "EIO=4&transport=websocket&sid=" + wsSession.Sid, func(h http.Header) { h.Set("Sec-Websocket-Version", "12") }},
+		}
+		for _, tc := range cases {
+			h := base()
+			tc.mut(h)
+			errsBefore, sessBefore := 0, w.Eng.ClientsCount()
+			for _, e := range w.Tap.Events() {
+				if e.Kind == "connection_error" {
+					errsBefore++
+				}
+			}
+			res := w.Do(rig.ReqSpec{Method: tc.method, Target: "/engine.io/?" + tc.query, Header: h})
+			rig.Wait()
+			r.Case("upgrade-failure/"+tc.name, true)
+			r.Obs("websocket_upgrade_failures", 1)
+			errs := 0
+			for _, e := range w.Tap.Events() {
+				if e.Kind == "connection_error" {
+					errs++
+				}
+			}
+			var body struct {
+				Code    *int   `json:"code"`
+				Message string `json:"message"`
+			}
+			jerr := json.Unmarshal(res.Body, &body)
+			if res.Err != nil || res.Status != 400 || jerr != nil || body.Code == nil || *body.Code != 3 || body.Message != "Bad request" {
+				r.Violationf("c05-admission-decision", map[string]string{"request": tc.name}, "WebSocket upgrade the WebSocket layer refuses (%s): answered %d %q (Content-Type %q, err %v); documented: 400 {\"code\":3,\"message\":\"Bad request\"}", tc.name, res.Status, trunc(res.Body), res.Header.Get("Content-Type"), res.Err)
+				continue
+			}
+			if errs-errsBefore != 1 {
+				r.Violationf("c05-connection-error-events", map[string]string{"request": tc.name}, "%d connection_error events for a refused WebSocket upgrade (%s)", errs-errsBefore, tc.name)
+			}
+			if w.Eng.ClientsCount() != sessBefore {
+				r.Violationf("c05-rejected-request-created-session", map[string]string{"request": tc.name}, "client count %d -> %d", sessBefore, w.Eng.ClientsCount())
+			}
+			if s := w.SocketByID(wsSession.Sid); s == nil || s.ReadyState() != "open" {
+				r.Violationf("c05-rejected-request-disturbed-session", map[string]string{"request": tc.name}, "the existing WebSocket session did not survive the refused request")
+				return
+			}
+		}
+		wsSession.Stop()
+	})
+}
+
 func TestC05(t *testing.T) {
 	r := rep.New(t, "C05")
 	defer r.Flush()
@@ -557,6 +633,7 @@ func TestC05(t *testing.T) {
 	if r.Lane == 0 {
 		runRouting(r)
 		runAcceptedRefusals(r)
+		runUpgradeFailures(r)
 	}
 	if r.Lane == 0 {
 		quicLanes(r, "admission")
